@@ -141,6 +141,7 @@ pub fn directed() -> Vec<Program> {
         frag("DogTn", "Dog", vec![t(), fld("barks")]),
         op("TypenameElsewhere", vec![Sel::obj("animals", vec![fld("name"), sp("DogTn")]), Sel::obj("pet", vec![sp("DogTn")])]),
     ], |_| {}));
+    out.last_mut().unwrap().tags.push("rejected-by-design".into());
     // 11. the same schema, the extension's implementor only as a runtime type
     out.push(prog_on(zoo_extended(), vec![
         op("ExtendedPlain", vec![Sel::obj("named", vec![t(), fld("name")]), Sel::obj("me", vec![fld("age"), fld("name")])]),
